@@ -258,8 +258,32 @@ ExactScriptStep ==
     [] pos = 3 -> (\E k \in {E, 2 * E} : GUpload("r1", << >>, k)) /\ pos' = 9
     [] OTHER -> FALSE
 
+\* a path that is a file in one bundle and a directory in the next ("a" -> "a/z", "a/y/w"), next to an unchanged,
+\* a changed and a removed file: the local copy of the first is updated to the second and then to a third that
+\* only adds below the new directory.  (The replacement of a directory by a file is not scripted: the unchanged
+\* code leaves the emptied directory behind and cannot create the file; pairs of that shape are outside C05's
+\* quantification and DESIGN.md records the observation.)
+P(s) == [p |-> s, gen |-> FALSE]
+SwapA == (P("a") :> "s") @@ (P("d/a") :> "t") @@ (P("d/b") :> "m") @@ (P("sp ace") :> "s")
+SwapB == (P("a/z") :> "s") @@ (P("a/y/w") :> "t") @@ (P("d/a") :> "t") @@ (P("d/b") :> "s")
+SwapC == (P("a/z") :> "s") @@ (P("a/y/w") :> "t") @@ (P("a/y/v") :> "e") @@ (P("d/a") :> "t") @@ (P("d/b") :> "s")
+SwapScriptStep ==
+  CASE pos = 0 -> GCreateRepo("r1") /\ pos' = 1
+    [] pos = 1 -> GUpload("r1", SwapA, 0) /\ pos' = 2
+    [] pos = 2 -> GUpload("r1", SwapB, 0) /\ pos' = 3
+    [] pos = 3 -> GUpload("r1", SwapC, 0) /\ pos' = 4
+    [] pos = 4 -> GDiff(1, 2) /\ pos' = 5
+    [] pos = 5 -> GUpdate(1, 2) /\ pos' = 6
+    [] pos = 6 -> GUpdate(2, 3) /\ pos' = 7
+    [] pos = 7 -> GUpdate(1, 3) /\ pos' = 9
+    [] OTHER -> FALSE
+
 GNext == /\ stage = "run"
-         /\ IF Script = "exact"
+         /\ IF Script = "swap"
+              THEN IF pos < 9 THEN SwapScriptStep /\ UNCHANGED stage
+                   ELSE stage' = "done" /\ UNCHANGED <<mvars, hist, pos>>
+            ELSE
+            IF Script = "exact"
               THEN IF pos < 9 THEN ExactScriptStep /\ UNCHANGED stage
                    ELSE stage' = "done" /\ UNCHANGED <<mvars, hist, pos>>
             ELSE
